@@ -1035,7 +1035,7 @@ func c07Enumerate(thorough bool) c07Space {
 }
 
 func runC07(replay string) int {
-	run := ev.NewRun("C07", "exploration")
+	run := ev.NewRun("C07", "model_checking")
 	run.Assumptions = []string{
 		"the reference predicate decodes the transaction bytes with the generated protobuf types only (TxRaw, TxBody, AuthInfo, MsgExec, MsgGrant, GenericAuthorization, MsgEthereumTx, go-ethereum's tx decoder); it calls no ante decorator and none of app/antedl",
 		"only refusals are demanded (plus acceptance of the alphabet-sanity shapes); top-level vesting-creation messages are C16's business; ReCheck is only fed transactions CheckTx accepted (ABCI contract)",
